@@ -225,14 +225,20 @@ def run(ctx):
                            + (f' (when isinstance(object, {cur["asked"]}) is {other})' if cur['asked'] else ''))
     finally:
         F.builtin_hook, F.isinstance_hook = prev_b, prev_i
-    # mapping: next(iter(pith.items())) under O1
-    mm = ctx.repo.mod('beartype._check.error._pep.pep484585.errpep484585mapping')
-    fn = mm.defs.get('find_cause_pep484585_mapping')
-    ctx.require(fn is not None, 'anchor vanished: find_cause_pep484585_mapping')
-    o1 = [a for a in walk_shallow(fn) if isinstance(a, ast.Assign) and norm(a.value) == 'next(iter(cause.pith.items()))']
-    ctx.ob('C03.R3', 'resample:mapping:first-item', mm.where(fn),
-           'the mapping explanation examines next(iter(pith.items())): the first key and its value, as the generated '
-           'code does', len(o1) == 1, f'{len(o1)} such assignments')
+    # mapping: next(iter(pith.items())) under O1 — decided on the interpreted finder (shared with C09.R3): the only item
+    # read from the object is the first entry of its items() view
+    from .c09 import container_finder_runs
+    n_map = 0
+    for finder, mmod, tag, is_tf, n_, kids, log in container_finder_runs(ctx):
+        if 'mapping' not in finder.qualname:
+            continue
+        n_map += 1
+        reads = [w for k, w in log if k in ('item', 'full-iteration')]
+        ctx.ob('C03.R3', f'resample:mapping:first-item:{tag}', mmod.where(finder.node),
+               'the mapping explanation examines next(iter(pith.items())): the first key and its value, as the generated '
+               'code does', reads == ['the checked object.items()'] and [k for k, w in log if k == 'item'] == ['item'],
+               f'reads {[(k, w) for k, w in log if k != "len"]}')
+    ctx.require(n_map >= 2, 'no mapping cause finder was interpreted')
     ctx.assume('a mapping\'s items() view is consistent with its __iter__ and __getitem__ (first key / its value)')
     # literal: explanation consults all literals
     lm = ctx.repo.mod('beartype._check.error._pep.errpep586')
